@@ -8,11 +8,14 @@ from checks import shapes as S
 
 
 def demanded(sh, meta):
-    """What C02 demands of a derivation request: ("panic", why) or ("ok", entries) or ("defect", class, entries)."""
+    """What C02 demands of a derivation request: ("panic", why) or ("ok", entries) or ("defect", class, entries).
+    The only defect class left is a focus inside a pointer-embedded struct; an accepted pointer container is a plain violation."""
     T, types, names = meta["T"], meta["types"], meta["names"]
     n = len(types)
     if T == "other":
-        return ("panic", "container type parameter is neither a struct nor a pointer to one")
+        return ("panic", "a container type parameter that is neither a struct nor a pointer to one")
+    if T == "ptr":
+        return ("panic", "a container type parameter that is a pointer to a struct, not a struct")
     if names:
         if len(names) < n:
             return ("panic", "too few names")
@@ -25,8 +28,6 @@ def demanded(sh, meta):
             return ("panic", "a type no field has")
     if any(e["type"] != t for e, t in zip(es, types)):
         return ("panic", "a name whose field has another type")
-    if T == "ptr":
-        return ("defect", "ptr-container-accepted", es)
     if any(not e["value"] for e in es):
         return ("defect", "ptr-embedded-focus", es)
     return ("ok", es)
@@ -39,7 +40,7 @@ def run(ctx):
     ctx.assumptions += ["gc/amd64 struct layout and reflect's field description are modelled (Model/Layout), validated against the compiler on every generated shape",
                         "type identity is equality of canonical GoType descriptions (the generator never prints two distinct types identically)",
                         "variadic attr has cap == len (explicit arguments), so attr[0:N] panics exactly when fewer than N names are given",
-                        "the model is faithful to today's code: derive_ok_or_panic holds only as _partial; the two defect classes are proved present in the model and reported as known findings when reproduced"]
+                        "the model is faithful to today's code: derive_ok_or_panic holds only as _partial; the remaining defect class (focus inside a pointer-embedded struct) is proved present in the model and reported as known finding when reproduced; a pointer container must panic (F6 repaired)"]
     S.apply_replay(ctx)
     S.regenerate(ctx)
     ctx.prove()
@@ -82,9 +83,6 @@ def run(ctx):
                 if d[0] == "panic":
                     ctx.violations.append(vlib.Violation("impl", "derivation silently accepted although the request has %s" % d[1], case=S.case_of(b, req, meta),
                                                          expected="panic at derivation time", got=res, key={"class": "accepted-" + meta["why"]}))
-                elif d[0] == "defect" and d[1] == "ptr-container-accepted":
-                    ctx.violations.append(vlib.Violation("impl", "container type parameter *S (not a struct) silently accepted", case=S.case_of(b, req, meta),
-                                                         expected="panic at derivation time", got=res, key={"class": "ptr-container-accepted"}))
                 elif d[0] == "defect":
                     e = next(x for x in d[2] if not x["value"])
                     w = wins[d[2].index(e)]
